@@ -36,11 +36,11 @@ def gen_model(wd):
 def model_phase(ck, wd, tier):
     """TLC + Apalache on the generated model. Returns list of lead cases (op,a,b)."""
     leads = []
-    widths = [2, 3, 4] if tier == 'quick' else [2, 3, 4, 5]
+    widths = [2, 3, 4] if tier == 'quick' else [2, 3, 4, 5, 6]
     for W in widths:
         cfg = 'MC_Scalar_W%d.cfg' % W
         open(os.path.join(wd, cfg), 'w').write(open(os.path.join(wd, 'MC_Scalar.cfg')).read().replace('Phi = 16', 'Phi = %d' % (1 << W)))
-        r = tlc(wd, 'MC_Scalar', cfg, timeout=900, tag='W%d' % W)
+        r = tlc(wd, 'MC_Scalar', cfg, timeout=1800, xmx='16g', tag='W%d' % W)
         ck.add_tlc(r, 'MC_Scalar W=%d (all %d word pairs, 8 ops)' % (W, 1 << (4 * W)))
         if r.violated:
             import re
